@@ -58,7 +58,14 @@ def dim_values(d, size):
     return (16.0 * (d + 1) + 0.25 * np.arange(size) + 0.5 * (np.arange(size) ** 2)).astype(np.float32)
 
 
+_SCENARIO_NO = [0]
+
+
 def base_scenario(rng):
+    # successive scenarios use other reference values under the same names, units and lengths (a writer that remembers
+    # matrices by anything less than the values themselves must not go unnoticed)
+    _SCENARIO_NO[0] += 1
+    voff = 10 * (_SCENARIO_NO[0] % 4)
     k, q = rng.randint(1, 3), rng.randint(1, 3)
     pos_sizes = [rng.randint(1, 3) for _ in range(k)]
     spec_sizes = [rng.randint(1, 4) for _ in range(q)]
@@ -75,7 +82,7 @@ def base_scenario(rng):
     }
     for side, sizes, lab in (('pos', pos_sizes, 'X'), ('spec', spec_sizes, 'S')):
         r = rng.random()
-        dims = [{'label': '%s%d' % (lab, i), 'unit': rng.choice(['um', 'V', '']), 'size': sizes[i], 'mode': 0, 'd': i + (0 if side == 'pos' else 5)}
+        dims = [{'label': '%s%d' % (lab, i), 'unit': rng.choice(['um', 'V', '']), 'size': sizes[i], 'mode': 0, 'd': i + (0 if side == 'pos' else 5) + voff}
                 for i in range(len(sizes))]
         if r < 0.6:
             prefix = {'pos': 'Position_', 'spec': 'Spectroscopic_'}[side] if rng.random() < 0.6 else rng.choice(['My-%s' % side, 'Anc_%s_' % side, side.upper()])
